@@ -137,7 +137,7 @@ def build_section(case):
                         augdata += bytes([e['pers'][0]]) + enc_ptr(le, A, e['pers'][0], e['pers'][1])
                 # bytes beyond the fields the letters announce: the declared length exists so that a reader can skip what it does not know
                 augdata += bytes(e.get('aug_slack', b''))
-                h += uleb(len(augdata)) + augdata
+                h += uleb(len(augdata), e.get('aug_len_pad', 0)) + augdata
             bodies.append({'ilen': ilen, 'O': O, 'pre': bytes(h), 'ops': ops, 'augdata': augdata, 'size': ilen + O + len(h) + len(ops)})
         else:
             cie = ents[e['cie']]
@@ -148,7 +148,7 @@ def build_section(case):
                 n_aug = 0
                 if cie['aug'][:1] == b'z':
                     n_lsda = (len(enc_ptr(le, A, lenc, 0)) if lenc != 0xff else 0) + len(e.get('aug_slack', b''))
-                    n_aug = len(uleb(n_lsda)) + n_lsda
+                    n_aug = len(uleb(n_lsda, e.get('aug_len_pad', 0))) + n_lsda
                 size = ilen + O + 2 * n_loc + n_aug + len(ops)
                 bodies.append({'ilen': ilen, 'O': O, 'ops': ops, 'size': size, 'fenc': fenc, 'lenc': lenc, 'n_loc': n_loc})
             else:
@@ -190,14 +190,14 @@ def build_section(case):
                 if cie['aug'][:1] == b'z':
                     slack = bytes(e.get('aug_slack', b''))
                     if lenc != 0xff:
-                        lsda_field = offs[i] + len(rec) + len(uleb(len(enc_ptr(le, A, lenc, 0)) + len(slack)))
+                        lsda_field = offs[i] + len(rec) + len(uleb(len(enc_ptr(le, A, lenc, 0)) + len(slack), e.get('aug_len_pad', 0)))
                         lsda = e['lsda']
                         if e.get('lsda_rel') is not None and (lenc & 0x70) == 0x10:
                             lsda = sec_addr + lsda_field + e['lsda_rel']
                         lrel = lsda - (sec_addr + lsda_field) if (lenc & 0x70) == 0x10 else lsda
                         augb = enc_ptr(le, A, lenc, lrel)
                     augb += slack
-                    rec += uleb(len(augb)) + augb
+                    rec += uleb(len(augb), e.get('aug_len_pad', 0)) + augb
                 rec += b['ops']
                 x.update(CIE_pointer=cp, loc=loc, range=e['range'], lsda=lsda, augdata=augb, fenc=fenc, lenc=lenc)
             else:
@@ -367,6 +367,8 @@ def _register(ctx, case, data, exp, nt):
             ctx.count('cie.v%d.%d' % (e['version'], e['fmt']))
         if e.get('aug_slack'):
             ctx.count('aug-data-longer-than-known-fields.%s' % e['t'])
+        if e.get('aug_len_pad') or len(e.get('aug_slack', b'')) >= 120:
+            ctx.count('aug-length-longer-than-one-byte.%s' % e['t'])
         if e.get('lsda_rel') is not None or e.get('loc_rel') is not None:
             ctx.count('pcrel-pointer-given-by-displacement')
     if any(e['t'] == 'fde' and e['cie'] > i for i, e in enumerate(case['entries'])):
@@ -548,7 +550,9 @@ def build_case(ch, tier, kind=None):
             lo, hi = ptr_range(A, penc)
             e['pers'] = [penc, ch.choice([0, 1, hi, lo, ch.int(lo, hi)])]
             if e['aug'][:1] == b'z' and ch.bool(0.25):
-                e['aug_slack'] = ch.choice([b'\x07\x05', b'\0', ch.bytes(1, 6)])
+                e['aug_slack'] = ch.choice([b'\x07\x05', b'\0', ch.bytes(1, 6), ch.bytes(120, 135)])
+            if e['aug'][:1] == b'z' and ch.bool(0.2):
+                e['aug_len_pad'] = ch.choice([1, 2])        # the length is a ULEB128: redundant groups and values >= 128 make it longer than one byte
         ops, ck = gen_ops(ch, A, caf, True, None, ch.choice([0, 2, 6]), 0, regs_pool)
         e['ops'] = ops
         e['_ck'] = ck
@@ -589,7 +593,9 @@ def build_case(ch, tier, kind=None):
             e['lsda'] = None
         if eh and cie['aug'][:1] == b'z':
             if ch.bool(0.2):
-                e['aug_slack'] = ch.choice([b'\x07\x05', b'\0', ch.bytes(1, 6)])
+                e['aug_slack'] = ch.choice([b'\x07\x05', b'\0', ch.bytes(1, 6), ch.bytes(120, 135)])
+            if ch.bool(0.2):
+                e['aug_len_pad'] = ch.choice([1, 2])
             # pc-relative pointers given by their encoded displacement (0: the pointer designates its own field)
             if lenc != 0xff and lenc & 0x10 and ch.bool(0.3):
                 e['lsda_rel'] = ch.choice([0, 0, 1, 8, 0x40])
@@ -702,7 +708,8 @@ def floors(ctx):
         if c['fde.enc.' + enc] == 0 or c['fde.enc.' + enc + '+pcrel'] == 0:
             out.append('FDE pointer encoding never exercised: ' + enc)
     for k in ('cie.v1.32', 'cie.v3.32', 'cie.v4.32', 'cie.v4.64', 'fde-before-cie', 'entry.zero', 'aug-data-longer-than-known-fields.cie',
-              'aug-data-longer-than-known-fields.fde', 'pcrel-pointer-given-by-displacement'):
+              'aug-data-longer-than-known-fields.fde', 'pcrel-pointer-given-by-displacement', 'aug-length-longer-than-one-byte.cie',
+              'aug-length-longer-than-one-byte.fde'):
         if c[k] == 0:
             out.append('no case with ' + k)
     for kind in ('debug_frame', 'eh_frame'):
